@@ -33,7 +33,7 @@ LEVEL_TEXT = (
     'the cases where the sentinel -1 or the falsy id 0 reaches an index '
     'expression - a property of the code, found without constructing the '
     'topology. Loadability by the LiteRT interpreter is not decided.'
-    ' Decision tables / simulations (abstract interpreter, exhaustive over their listed lattices only): graph-info generator, performer id translation, op-id bookkeeping after insertions and replacements, graph rewrite against a reference rewriting, whole pipeline on label models.'
+    ' Decision tables / simulations (abstract interpreter, exhaustive over their listed lattices only): graph-info generator, performer id translation, op-id bookkeeping after insertions and replacements, graph rewrite against a reference rewriting, whole pipeline on label models, blockwise FULLY_CONNECTED replacement by the real emulated_subchannel transformation with a structural oracle (index ranges, names, one producer, execution order, the chain from the FC input to the FC output, element counts of the reshapes).'
 )
 LEVEL_NOTE = (
     'Trusted: sa CFG/def-use engines; flatbuffer object model (OperatorT, '
